@@ -95,6 +95,11 @@ func (e *Engine) checkEntityRaw(s *Sys, me *MEnt, _ string) *Violation {
 				// a component that must read zero shows data: a value turning up under a relation target it was never assigned to
 				v.Also = append(v.Also, "stale-under-target")
 			}
+			if e.P.Types[t].IsPtr() {
+				// a pointer-carrying component that no longer references what was supplied: C14 ("stays intact ... however
+				// the value was supplied") as much as C01
+				v.Also = append(v.Also, "gc-integrity")
+			}
 			return v
 		}
 	}
